@@ -6,12 +6,12 @@ use super::*;
 use crate::token::verif_stub as st;
 use flussab::{DeferredReader, Refill};
 
-fn any_reader() -> LineReader<'static> {
+pub fn any_reader() -> LineReader<'static> {
     LineReader::new(DeferredReader::model_any(Refill::All))
 }
 
 /// Parser state invariant: 1 <= lit_limit <= MAX_DIMACS; count <= limit while the limit is active.
-fn any_parser<L: Dimacs>() -> Parser<'static, L> {
+pub fn any_parser<L: Dimacs>() -> Parser<'static, L> {
     let clause_count: usize = kani::any();
     let clause_limit: usize = kani::any();
     let clause_limit_active: bool = kani::any();
